@@ -30,7 +30,10 @@ pub fn plan_for(property: &str, seed: u64, run: u64, miri: bool) -> HistPlan {
         knobs.max_clients = 2;
     } else if miri && run % 3 == 2 {
         // every third thread plan draws its texts from a pool of two (see gen_plan)
+        // three clients running the same program in (barrier-aligned or natural) lock-step
         knobs.text_pool = true;
+        knobs.min_clients = 3;
+        knobs.max_clients = 3;
     }
     if !miri {
         // soak runs: long histories on one object with short texts, so that anything that
